@@ -27,7 +27,7 @@ def install(reg):
         if isinstance(x, VRef):
             h = p.heap[x.rid]
             if isinstance(h, HBytes):
-                return VInt(z3.Length(h.t))
+                return VInt(h.length if h.length is not None else z3.Length(h.t))
             if isinstance(h, HList):
                 return VInt(p.list_len(h))
             if isinstance(h, HDict):
@@ -138,6 +138,10 @@ def install(reg):
             return p.alloc(HBytes(z3.Empty(BYTES)))
         x = p.unbox(args[0])
         if isinstance(x, VInt):
+            ns = z3.simplify(x.t)
+            if z3.is_int_value(ns) and ns.as_long() > 64:
+                # a large concrete buffer: opaque content, length tracked outside the sequence theory
+                return p.alloc(HBytes(p.fresh("buffer", BYTES), length=ns))
             return p.alloc(HBytes(p.engine.zeros(p, x.t)))
         t = p.bytes_term(x)
         if t is not None:
@@ -409,6 +413,8 @@ def install(reg):
         if t is None:
             raise Unsupported("bytearray.extend of non-bytes")
         h.t = z3.Concat(h.t, t)
+        if h.length is not None:
+            h.length = h.length + z3.Length(t)
         return VNone()
     M[("HBytes", "extend")] = ba_extend
 
@@ -543,7 +549,7 @@ def install_engine_theories(Engine):
         f = self.uf("zeros", I, BYTES)
         t = f(n)
         path.assume(z3.Implies(n >= 0, z3.Length(t) == n))
-        path.assume(z3.Implies(n < 0, t == z3.Empty(BYTES)))
+        path.assume(z3.Implies(n <= 0, t == z3.Empty(BYTES)))
         path.ghost.setdefault("zeros_terms", []).append((t, n))
         return t
     Engine.zeros = zeros
